@@ -50,7 +50,7 @@ REGEXP_CTORS = {'Zero': 0, 'One': 0, 'Symbol': 1, 'Iteration': 1, 'Sum': 2, 'Con
 RX = Regexp
 RX_TEST = {'Zero': RX.is_Zero, 'One': RX.is_One, 'Symbol': RX.is_Sym, 'Iteration': RX.is_Iter, 'Sum': RX.is_Sum, 'Concat': RX.is_Concat}
 RX_FIELD = {'operand': (RX.operand, RX.is_Iter, REGEXP), 'symbol': (RX.sym, RX.is_Sym, ATOM)}
-REC_CLASSES = {'DFA', 'NFA', 'TM', 'PDA', 'PDAState', 'GNFA'}
+REC_CLASSES = {'DFA', 'NFA', 'TM', 'PDA', 'PDAState', 'GNFA', 'Rule', 'Alternative', 'CFG'}
 
 
 def loops_in(fn):
@@ -105,6 +105,7 @@ class Exec(object):
         self.result = None
         self.loop_stack = []
         self.in_comprehension = False
+        self.literal_lists = {}      # list term -> its elements, for list literals
         self.elem_sets = {}          # list term -> set term with the same elements (ghost), when known by construction
 
     # ------------------------------------------------------------------ obligations / assumptions
@@ -218,7 +219,9 @@ class Exec(object):
     def list_lit(self, et, vs):
         t = LIST(et); arr = fresh_z('arr0', z3.ArraySort(z3.IntSort(), sort_of(et)))
         for i, v in enumerate(vs): arr = Store(arr, i, v.z)
-        return mk_list(t, IntVal(len(vs)), arr)
+        r = mk_list(t, IntVal(len(vs)), arr)
+        self.literal_lists[str(r.z)] = list(vs)
+        return r
 
     def default_of(self, t):
         return fresh_z('dflt', sort_of(t))
@@ -337,6 +340,10 @@ class Exec(object):
             x = self.coerce(x, c.t.args[0]); return Select(map_dom(c), x.z)
         if c.t.kind == 'list' and str(c.z) in self.elem_sets:
             es = self.elem_sets[str(c.z)]; return Select(es.z, self.coerce(x, es.t.args[0]).z)
+        if c.t.kind == 'list' and c.t.args[0].kind == 'list' and str(x.z) in self.literal_lists:
+            # membership of a literal list [x0, .., xn-1] in a list of lists: no inner quantifier needed
+            els = self.literal_lists[str(x.z)]; i = fresh_z('i', z3.IntSort()); el = SV(c.t.args[0], Select(list_arr(c), i))
+            return Exists([i], And(0 <= i, i < list_len(c), list_len(el) == len(els), *[Select(list_arr(el), j) == v.z for j, v in enumerate(els)]))
         if c.t.kind == 'list':
             i = fresh_z('i', z3.IntSort())
             return Exists([i], And(0 <= i, i < list_len(c), self.equal(SV(c.t.args[0], Select(list_arr(c), i)), x)))
@@ -421,13 +428,19 @@ class Exec(object):
         # defaultdict: value if present, default otherwise.  The insertion of the default into the map itself is
         # not modelled (it does not change the abstract view); see DESIGN 2.2 "defaultdict".
         if dflt == 'set': return SV(m.t.args[1], Select(S.view(m), k.z))
+        if dflt == 'list' and not self.has_bound_vars() and not self.spec_mode:
+            cur = fresh('cur', m.t.args[1])          # the stored list, or a new empty one: a constant, so that its array can serve as a trigger
+            self.assume(p, Implies(Select(map_dom(m), k.z), cur.z == Select(map_val(m), k.z)))
+            self.assume(p, Implies(Not(Select(map_dom(m), k.z)), list_len(cur) == 0))
+            self.assume(p, list_len(cur) >= 0)
+            return cur
         return SV(m.t.args[1], If(Select(map_dom(m), k.z), Select(map_val(m), k.z), self.dflt_value(m.t).z))
 
     def dflt_value(self, mt):
         vt, d = mt.args[1], mt.args[2]
         if d == 'set': return empty_set(vt.args[0])
         if d == 'zero': return SV(REGEXP, RX.Zero)
-        if d == 'list': return mk_list(vt, IntVal(0), fresh_z('arr0', z3.ArraySort(z3.IntSort(), sort_of(vt.args[0]))))
+        if d == 'list': return mk_list(vt, IntVal(0), T.EMPTY_ARR(vt))
         raise Unsupported('default %s' % d)
 
     def slice(self, p, o, sl, e):
@@ -892,6 +905,10 @@ class Exec(object):
                 self.assume(p, And(0 <= i, i < list_len(o), self.equal(SV(o.t.args[0], Select(list_arr(o), i)), x),
                                    ForAll([j], Implies(And(0 <= j, j < i), Not(self.equal(SV(o.t.args[0], Select(list_arr(o), j)), x))))))
                 return SV(INT, i)
+        if o.t.kind == 'rec':
+            cname = {'IdGen': 'IdentifierGenerator'}.get(o.t.args[0], o.t.args[0])
+            cs = self.reg.variants('%s.%s' % (cname, name))
+            if cs: return self.call_contract(p, cs, e, self_arg=o, self_expr=f.value)
         if o.t == WORD:
             if name == 'startswith': return SV(BOOL, T.isprefix(args[0].z, o.z))
         if o.t == ATOM and name == 'upper':
@@ -930,9 +947,13 @@ class Exec(object):
                 # the new array is a fresh constant related to the old one by a frame fact with triggers on BOTH arrays, so that
                 # facts about old cells (arr[i]) instantiate quantified goals about the new list and vice versa
                 av = self.coerce(args[0], et).z; arr2 = fresh_z('arr', arr.sort()); i_ = fresh_z('i', z3.IntSort())
-                p.pc.append(Select(arr2, n) == av)
-                p.pc.append(ForAll([i_], Implies(i_ != n, Select(arr2, i_) == Select(arr, i_)), patterns=[Select(arr, i_), Select(arr2, i_)]))
-                nv = mk_list(o.t, n + 1, arr2); res = None
+                try:
+                    frame_ = ForAll([i_], Implies(i_ != n, Select(arr2, i_) == Select(arr, i_)), patterns=[Select(arr, i_), Select(arr2, i_)])
+                    p.pc.append(Select(arr2, n) == av); p.pc.append(frame_)
+                    nv = mk_list(o.t, n + 1, arr2)
+                except z3.Z3Exception:      # the old array is not a pattern-able term (e.g. an if-then-else from a defaultdict lookup)
+                    nv = mk_list(o.t, n + 1, Store(arr, n, av))
+                res = None
             elif name == 'pop' and not args:
                 self.oblig(p, 'pop-nonempty:%d' % e.lineno, 'safety', n > 0, e.lineno)
                 nv = mk_list(o.t, n - 1, arr); res = SV(et, Select(arr, n - 1))
@@ -1007,7 +1028,7 @@ class Exec(object):
         return r
 
     # --- contract calls
-    def call_contract(self, p, cs, e, self_arg=None):
+    def call_contract(self, p, cs, e, self_arg=None, self_expr=None):
         if len(cs) > 1:       # typed entry points of one function: pick the variant whose first differing parameter type matches
             pos_vals = [self.ev(p, a) if not self.is_empty_literal(a) else None for a in e.args]
             off = 1 if self_arg is not None else 0
@@ -1028,7 +1049,7 @@ class Exec(object):
                 if n in c.defaults: args[n] = self.ev_spec_in(p, c.defaults[n], {})
                 else: raise Unsupported('call %s: missing argument %s' % (c.qualname, n))
             args[n] = self.coerce(args[n], c.param_types[n])
-        return self.apply_contract(p, c, args, e, [a for a in pos])
+        return self.apply_contract(p, c, args, e, ([self_expr] if self_arg is not None else []) + [a for a in pos])
 
     @staticmethod
     def is_empty_literal(n):
@@ -1103,8 +1124,8 @@ class Exec(object):
             self.result, self.spec_mode = saved_res, saved_mode
         # 4. write back modified arguments
         for n in c.modifies:
-            idx = list(c.params).index(n) - (1 if c.is_method else 0)
-            self.store(p, arg_exprs[idx], post_env[n])
+            idx = list(c.params).index(n) - (1 if (c.is_method and len(arg_exprs) < len(c.params)) else 0)
+            if arg_exprs[idx] is not None: self.store(p, arg_exprs[idx], post_env[n])
         return res
 
     # ------------------------------------------------------------------ statements
@@ -1208,6 +1229,8 @@ class Exec(object):
         sc = z3.simplify(c)
         if z3.is_true(sc): return self.run_block([p], st.body)          # statically decided by the declared types
         if z3.is_false(sc): return self.run_block([p], st.orelse)
+        if any(h.eq(Not(c)) or h.eq(z3.simplify(Not(c))) for h in p.pc): return self.run_block([p], st.orelse)      # decided by a precondition
+        if any(h.eq(c) for h in p.pc): return self.run_block([p], st.body)
         a = p.clone(); a.pc.append(c)
         b = p.clone(); b.pc.append(Not(c))
         return self.run_block([a], st.body) + self.run_block([b], st.orelse)
